@@ -841,6 +841,22 @@ class SArr:
         else:
             c.oblige('division-by-nonzero', to_real(lift(o)) != 0, 'safety')
 
+    def __mod__(self, o):
+        """ASSUMED contract of the real % with a positive scalar modulus m: result r in [0, m) with a = q*m + r for an integer q"""
+        if isinstance(o, SArr) or self.nan is not None:
+            raise Unsupported('array % array / NaN')
+        m = to_real(lift(o))
+        c = C()
+        if not Ctx.spec:
+            c.oblige('modulus-positive', m > 0, 'safety')
+        Rf = c.fresh_fun('modr', *([I] * self.ndim + [R]))
+        Qf = c.fresh_fun('modq', *([I] * self.ndim + [I]))
+        ix = [z3.Int('mi%d' % d) for d in range(self.ndim)]
+        rng = z3.And(*[z3.And(0 <= i, i < n) for i, n in zip(ix, self.shape_e)])
+        a = to_real(self.elem(*ix))
+        c.assume(z3.ForAll(ix, z3.Implies(rng, z3.And(Rf(*ix) >= 0, Rf(*ix) < m, a == z3.ToReal(Qf(*ix)) * m + Rf(*ix))), patterns=[Rf(*ix)]), feas=False)
+        return SArr(self.shape_e, lambda *jx: Rf(*jx), 'f')
+
     def __neg__(self):
         r = SArr(self.shape_e, lambda *ix: -self.elem(*ix), self.kind, nan=self.nan)
         r.off = self.off
